@@ -4,6 +4,13 @@ JSON program:
   {"tempos": [q..], "bodies": [[act..]..], "nconds": n, "nflows": n, "mseed": int, "tail": q}
   act = ["Y", q] | ["S", lat, [elem..]] | ["P", b, clock] | ["F", b] | ["T", i, q] | ["seed", s] | ["D", req]
       | ["SB", k]   (send the SAME nested list object shared[k] = [lat, [elem..]] again: a template kept in a variable)
+      | quantisation API of TempoClock i, called from inside the routine, results logged as values (NOT in the Coq model:
+        compared NRT vs NRT vs RT only):  ["nb", i] next_bar() | ["nbb", i, q] next_bar(q) | ["ntg", i, quant, phase]
+        next_time_on_grid | ["ttnb", i, quant] time_to_next_beat | ["bar", i] bar() and beat_in_bar() | ["cb", i] beats, seconds
+        | ["bpb", i, q] beats_per_bar = q (then base_bar, base_bar_beat) | ["pnb", b, i] play_next_bar(Routine(body b))
+        | ["PQ", b, clock, quant, phase] Routine(body b).play(clock, [quant, phase]) | ["CP", b, i, quant] clocks[i].play(Routine, quant)
+        | ["sch", clock, q] clock.sched(q, function logging its logical time) | ["scha", i, q] clocks[i].sched_abs(clocks[i].beats + q, function)
+        | ["newc", q] TempoClock(q) created now: its beats, next_bar()
       | ["W", c] | ["sig", c] | ["test", c, bool] | ["fget", f] | ["fset", f, v] | ["pause", b] | ["resume", b] | ["R"]
   elem, lat, clock, q as in c05_kscript.py.
 The whole program is Routine(body 0).play(SystemClock); the root creates the TempoClocks when it starts.
@@ -73,6 +80,8 @@ class XRun:
         self.nplay = []             # rid -> plays made so far
         self.latest = {}            # body -> rid
         self.clocks = []
+        self.extra_clocks = []
+        self.nfun = {}
         self.conds = [Condition() for _ in range(prog['nconds'])]
         self.flows = [FlowVar() for _ in range(prog['nflows'])]
         main._m_rgen.seed(prog['mseed'])
@@ -210,6 +219,8 @@ class XRun:
                 self.events.append(['tempo', org, a[1], a[2], False])
                 return False
             return self.do_tempo(org, a[1], a[2])
+        if kind in ('nb', 'nbb', 'ntg', 'ttnb', 'bar', 'cb', 'bpb', 'pnb', 'PQ', 'CP', 'sch', 'scha', 'newc'):
+            return self.quant_act(rid, k, a, cclk)
         if kind == 'seed':
             rout.rand_seed = seed_value(a[1])
             self.gens.append(rout._rgen)
@@ -256,6 +267,86 @@ class XRun:
                 return False
             return True
         raise AssertionError(a)
+
+    # ------------------------------------------------------------ quantisation API (logged values)
+    def qlog(self, rid, k, name, *vals):
+        self.vals.append(['q', rid, k, name] + [v if isinstance(v, (str, bool, type(None))) else fr(v) for v in vals])
+
+    def rel(self, secs):
+        return fr(Fraction(secs) - Fraction(self.t0))
+
+    def quant_act(self, rid, k, a, cclk):
+        kind = a[0]
+        org = [rid, k]
+        try:
+            if kind == 'newc':
+                c = TempoClock(num(a[1]))
+                self.extra_clocks.append(c)
+                self.qlog(rid, k, 'newc', c.beats, c.next_bar(), c.next_time_on_grid(1, 0), self.rel(c.seconds))
+                return True
+            if kind in ('PQ', 'sch'):
+                code = a[2] if kind == 'PQ' else a[1]
+            elif kind in ('pnb', 'CP'):
+                code = ['T', a[2]]
+            else:
+                code = ['T', a[1]]
+            if code != 'S' and code[1] >= len(self.clocks):
+                return False
+            clock = self.clock_of(code)
+            if kind == 'nb':
+                self.qlog(rid, k, 'nb', clock.next_bar())
+            elif kind == 'nbb':
+                self.qlog(rid, k, 'nbb', clock.next_bar(num(a[2])))
+            elif kind == 'ntg':
+                self.qlog(rid, k, 'ntg', clock.next_time_on_grid(num(a[2]), num(a[3])))
+            elif kind == 'ttnb':
+                self.qlog(rid, k, 'ttnb', clock.time_to_next_beat(num(a[2])))
+            elif kind == 'bar':
+                self.qlog(rid, k, 'bar', clock.bar(), clock.beat_in_bar())
+            elif kind == 'cb':
+                self.qlog(rid, k, 'cb', clock.beats, self.rel(clock.seconds), clock.tempo)
+            elif kind == 'bpb':
+                try:
+                    clock.beats_per_bar = num(a[2])
+                    ok = True
+                except Exception:           # ClockError: only from the clock's own scheduling thread
+                    ok = False
+                if clock is cclk:
+                    self.qlog(rid, k, 'bpb', ok, clock.beats_per_bar, clock.base_bar, clock.base_bar_beat)
+                else:           # another clock's meter is that clock's routines' business: only whether the setter refused
+                    self.qlog(rid, k, 'bpb', ok)
+            elif kind in ('pnb', 'PQ', 'CP'):
+                b = a[1]
+                if b >= len(self.prog['bodies']):
+                    return False
+                prid = rid
+                path = self.paths[prid] + [self.nplay[prid]]
+                self.nplay[prid] += 1
+                T = main.current_tt._m_seconds
+                crid, rout = self.new_routine(b, path)
+                if kind == 'pnb':
+                    clock.play_next_bar(rout)
+                elif kind == 'PQ':
+                    rout.play(clock, [num(a[3]), num(a[4])])
+                else:
+                    clock.play(rout, num(a[3]))
+                self.events.append(['play', org, crid, self.code_of(clock), fr(T)])
+            elif kind in ('sch', 'scha'):
+                n = self.nfun.get(rid, 0)          # numbered per scheduling routine (the global order across clocks is not fixed)
+                self.nfun[rid] = n + 1
+                run = self
+
+                def fn(*_args, n=n, rid=rid, clock=clock):
+                    run.vals.append(['q', rid, -1, 'fn', n, run.rel(clock.seconds), fr(clock.beats) if clock is not SystemClock else None])
+                if kind == 'sch':
+                    clock.sched(num(a[2]), fn)
+                else:
+                    clock.sched_abs(clock.beats + num(a[2]), fn)
+                self.qlog(rid, k, kind, n)
+            return True
+        except Exception as e:
+            self.errors.append('quant action %s: %r' % (a, e))
+            return False
 
     def make_body(self, b, rid):
         acts = self.prog['bodies'][b]
@@ -399,17 +490,17 @@ def run_rt(prog, delay=None):
     done = False
     while time.time() < deadline:
         with run.lock:
-            if run.t0 is not None and SystemClock._task_queue.empty() and all(c._task_queue.empty() for c in run.clocks):
+            if run.t0 is not None and SystemClock._task_queue.empty() and all(c._task_queue.empty() for c in run.clocks + run.extra_clocks):
                 done = True
                 break
         time.sleep(0.01)
     if delay is not None:
         main.elapsed_time = K5._jit.elapsed
     with run.lock:
-        for c in run.clocks:
+        for c in run.clocks + run.extra_clocks:
             c.clear()
         SystemClock.clear()
-    for c in run.clocks:
+    for c in run.clocks + run.extra_clocks:
         c.stop()
     return run.result({'schedule': run.schedule, 'completed': done, 'offset': str(SystemClock._elapsed_osc_offset)})
 
